@@ -344,12 +344,47 @@ SPLIT_USES = [
     'nodenames = [node.name for node in col.node]',
     'i0 = nodenames.index(nodename)',
     'i = [(i0 + j) % nn for j in range(nn)]',
-    'col.centre = col.centroid',
+]
+# statements that must stand, unconditionally, in the same block as `del col.node[i[k]]` and after it
+SPLIT_AFTER_DEL = [
     'col.get_area()',
     'self.add_column(col2)',
     'self.set_column_num_layers(col2)',
     'self.add_connection(connection([col, col2]))',
 ]
+
+
+def _block_with(fn, pred):
+    """the statement list (and index) that directly contains the first statement satisfying pred"""
+    for n in ast.walk(fn):
+        for fld in ('body', 'orelse', 'finalbody'):
+            stmts = getattr(n, fld, None)
+            if isinstance(stmts, list):
+                for k, st in enumerate(stmts):
+                    if isinstance(st, ast.stmt) and pred(st): return stmts, k
+    return None, None
+
+
+def read_split_centre(fn):
+    """is the shrunk column's centre recomputed UNCONDITIONALLY after its node is deleted
+    (`col.centre = col.centroid` in the block of the `del`, after it)?  -> gen_split_recentre"""
+    isdel = lambda st: isinstance(st, ast.Delete) and any(ast.unparse(t).startswith('col.node') for t in st.targets)
+    stmts, k = _block_with(fn, isdel)
+    if stmts is None: raise Refusal('split_column: no `del col.node[...]`')
+    after = [ast.unparse(st) for st in stmts[k + 1:]]
+    for u in SPLIT_AFTER_DEL:
+        if u not in after:
+            raise Refusal('split_column: `%s` is no longer an unconditional statement after `del col.node[...]`' % u)
+    if 'col.centre = col.centroid' in after:
+        if after.index('col.centre = col.centroid') > after.index('self.add_column(col2)'):
+            raise Refusal('split_column: the centre is recomputed only after the new column is added')
+        return True
+    assigns = [n for n in ast.walk(fn) if isinstance(n, ast.Assign) and ast.unparse(n.targets[0]) == 'col.centre']
+    for n in ast.walk(fn):
+        if isinstance(n, ast.AugAssign) and ast.unparse(n.target) == 'col.centre': raise Refusal('split_column: col.centre updated in place')
+    if len(assigns) > 1 or any(ast.unparse(a.value) != 'col.centroid' for a in assigns):
+        raise Refusal('split_column: unexpected assignment(s) to col.centre: %s' % [ast.unparse(a) for a in assigns])
+    return False        # absent or conditional: the old quadrilateral's centre may survive
 
 
 def read_split(fn):
@@ -426,6 +461,7 @@ def translate(repo_file):
     spl = _find(cls.body, ast.FunctionDef, 'split_column')
     check_uses(spl, SPLIT_USES, 'split_column()')
     r.split = read_split(spl)
+    r.split_recentre = read_split_centre(spl)
     split_entry = [[('C', k) for k in r.split[0]], [('C', k) for k in r.split[1]]]
 
     hdr = HEADER % repo_file
@@ -439,7 +475,9 @@ def translate(repo_file):
     g.append(';\n   '.join('((%d, %d, %s), %s, %s)' % (nn, ns, 'None' if d is None else 'Some %d' % d, rule, coq_entry(e))
                            for nn, ns, d, rule, e in r.decomp) + '].\n\n')
     g.append('Definition gen_fan_child (n i : nat) : child := [%s].\n\n' % '; '.join(r.fan))
-    g.append('Definition gen_split_entry : entry := %s.\n\n' % coq_entry(split_entry))
+    g.append('Definition gen_split_entry : entry := %s.\n' % coq_entry(split_entry))
+    g.append('(* split_column: is `col.centre = col.centroid` executed unconditionally after the node is deleted? *)\n'
+             'Definition gen_split_recentre : bool := %s.\n\n' % ('true' if r.split_recentre else 'false'))
     g.append('Open Scope Z_scope.\n' + tt_text)
     r.files = {'GenRefine': ''.join(g)}
 
